@@ -130,6 +130,85 @@ def to_sympy(e):
     raise ValueError(e)
 
 
+class Unreadable(Exception):
+    pass
+
+
+def from_sympy(x):
+    """read a sympy expression (the implementation's internal, auto-simplified formula) back into the AST, following the
+    way the code printers lay out products (numerator / denominator; a lone Pow(b, -1) is printed 1/b).
+    Raises Unreadable for anything outside the AST.  Used to classify an already rejected case and to feed the typed
+    model with the formula the implementation really evaluates."""
+    import sympy
+    from qupulse.utils.sympy import IndexedBroadcast
+
+    def fold(op, items):
+        acc = items[0]
+        for it in items[1:]:
+            acc = ['b', op, acc, it]
+        return acc
+
+    def rd(x):
+        if x is sympy.nan:
+            return ['nan']
+        if x is sympy.true or x is sympy.false:
+            return ['c', '1' if x is sympy.true else '0', 'i']
+        if isinstance(x, sympy.Integer):
+            return ['c', str(int(x)), 'i']
+        if isinstance(x, sympy.Rational):
+            return ['c', '%d/%d' % (x.p, x.q), 'r']
+        if isinstance(x, sympy.Float):
+            return ['c', str(F(float(x))), 'f']
+        if isinstance(x, sympy.Symbol):
+            if x.name not in NID:
+                raise Unreadable(x.name)
+            return ['v', x.name]
+        if isinstance(x, sympy.Add):
+            return fold('add', [rd(a) for a in x.args])
+        if isinstance(x, sympy.Mul):
+            num, den = [], []
+            for a in x.args:
+                if isinstance(a, sympy.Pow) and isinstance(a.exp, sympy.Integer) and a.exp < 0:
+                    den.append(rd(a.base) if a.exp == -1 else ['u', 'pow:%d' % -int(a.exp), rd(a.base)])
+                else:
+                    num.append(rd(a))
+            n = fold('mul', num) if num else ['c', '1', 'i']
+            return ['b', 'div', n, fold('mul', den)] if den else n
+        if isinstance(x, sympy.Pow):
+            if not isinstance(x.exp, sympy.Integer):
+                raise Unreadable('pow')
+            if x.exp == -1:
+                return ['b', 'div', ['c', '1', 'i'], rd(x.base)]
+            return ['u', 'pow:%d' % int(x.exp), rd(x.base)]
+        un = {sympy.floor: 'floor', sympy.ceiling: 'ceil', sympy.Abs: 'abs', sympy.sin: 'sin', sympy.cos: 'cos',
+              sympy.exp: 'exp', sympy.Not: 'not'}
+        if x.func in un and len(x.args) == 1:
+            return ['u', un[x.func], rd(x.args[0])]
+        nary = {sympy.Min: 'min', sympy.Max: 'max', sympy.And: 'and', sympy.Or: 'or'}
+        if x.func in nary:
+            return fold(nary[x.func], [rd(a) for a in x.args])
+        rel = {sympy.StrictLessThan: 'lt', sympy.LessThan: 'le', sympy.StrictGreaterThan: 'gt',
+               sympy.GreaterThan: 'ge', sympy.Equality: 'eq', sympy.Unequality: 'ne'}
+        if x.func in rel:
+            return ['b', rel[x.func], rd(x.args[0]), rd(x.args[1])]
+        if isinstance(x, sympy.Piecewise):
+            out = ['nan']
+            for val, cond in reversed(x.args):
+                out = rd(val) if cond is sympy.true else ['ite', rd(cond), rd(val), out]
+            return out
+        if isinstance(x, sympy.Sum) and len(x.limits) == 1 and len(x.limits[0]) == 3:
+            i, lo, hi = x.limits[0]
+            if i.name not in NID:
+                raise Unreadable(i.name)
+            return ['sum', i.name, rd(lo), rd(hi), rd(x.function)]
+        if isinstance(x, sympy.Indexed) and len(x.indices) == 1 and str(x.base) in BASES:
+            return ['idx', str(x.base), rd(x.indices[0])]
+        if isinstance(x, IndexedBroadcast):
+            return ['ibc', rd(x.args[0]), int(x.args[1][0]), rd(x.args[2])]
+        raise Unreadable(type(x).__name__)
+    return rd(x)
+
+
 def gq(q):
     q = F(q)
     return '(%d # %d)' % (q.numerator, q.denominator)
@@ -356,9 +435,97 @@ def py_eval(e, sc, vc, trace=None, fnt=None, eager=False):
     return ev(e, sc)
 
 
-def eager_fails(e, sc, vc):
+def tjoin(a, b):
+    return 'float' if 'float' in (a, b) else 'time' if 'time' in (a, b) else 'int'
+
+
+def typed_eval(e, tsc, tvc):
+    """mirror of ModelT.evalT: value AND Python type (int | time | float) of the formula as the exact-rational lambda
+    computes it (Rational constant -> TimeType, int / int -> float, int ** negative -> float, floor/ceiling/comparison
+    -> int, Piecewise/Min/Max -> type of the selected operand unless a float is among the candidates).
+    tsc: name -> (Fraction, type); tvc: base -> (list, type).  -> (value, type); raises EvalError"""
+    def ev(e, sc):
+        k = e[0]
+        if k == 'c':
+            q = F(e[1])
+            return q, ('float' if e[2] == 'f' else 'int' if q.denominator == 1 else 'time')
+        if k == 'nan':
+            raise EvalError('nan')
+        if k == 'v':
+            if e[1] not in sc:
+                raise EvalError('unbound')
+            return sc[e[1]]
+        if k == 'u':
+            (x, t), op = ev(e[2], sc), e[1]
+            if op in ('floor', 'ceil', 'not'):
+                return py_eval(['u', op, ['c', str(x), 'r']], {}, {}), 'int'
+            if op.startswith('pow:'):
+                v = py_eval(['u', op, ['c', str(x), 'r']], {}, {})
+                return v, ('float' if t == 'int' and int(op[4:]) < 0 else t)
+            if op in FNS:
+                return fn_value(op, x), 'float'
+            return py_eval(['u', op, ['c', str(x), 'r']], {}, {}), t
+        if k == 'b':
+            (x, tx), (y, ty), op = ev(e[2], sc), ev(e[3], sc), e[1]
+            v = py_eval(['b', op, ['c', str(x), 'r'], ['c', str(y), 'r']], {}, {})
+            if op == 'div':
+                return v, ('float' if tx == 'int' and ty == 'int' else tjoin(tx, ty))
+            if op in CMPS + ['and', 'or', 'floordiv']:
+                return v, 'int'
+            if op in ('min', 'max'):
+                sel = tx if v == x else ty
+                return v, ('float' if 'float' in (tx, ty) else sel)
+            return v, tjoin(tx, ty)
+        if k == 'ite':
+            c, _ = ev(e[1], sc)
+            v, t = ev(e[2], sc) if c != 0 else ev(e[3], sc)
+            return v, t
+        if k == 'sum':
+            (lo, _), (hi, _) = ev(e[2], sc), ev(e[3], sc)
+            if lo.denominator != 1 or hi.denominator != 1:
+                raise EvalError('type')
+            if hi - lo > 64:
+                raise EvalError('big')
+            r, t = F(0), 'int'
+            for kk in range(int(lo), int(hi) + 1):
+                v, tv = ev(e[4], {**sc, e[1]: (F(kk), 'int')})
+                r, t = r + v, tjoin(t, tv)
+            return r, t
+        if k == 'idx':
+            if e[1] not in tvc:
+                raise EvalError('unbound')
+            i, _ = ev(e[2], sc)
+            l, t = tvc[e[1]]
+            if i.denominator != 1 or not -len(l) <= i < len(l):
+                raise EvalError('index')
+            return l[int(i)], t
+        if k == 'ibc':
+            (x, t), (i, _) = ev(e[1], sc), ev(e[3], sc)
+            if i.denominator != 1 or not -e[2] <= i < e[2]:
+                raise EvalError('index')
+            return x, t
+        raise ValueError(e)
+    return ev(e, tsc)
+
+
+def typed_scope(scope):
+    """harness scope -> (tsc, tvc) for typed_eval"""
+    base = {'int': 'int', 'npint': 'int', 'float': 'float', 'npfloat': 'float', 'time': 'time', 'frac': 'time'}
+    tsc, tvc = {}, {}
+    for x, tv in scope.items():
+        if tv['ty'] in ('arri', 'arrf'):
+            if x in BASES:
+                tvc[x] = ([F(q) for q in tv['v']], 'int' if tv['ty'] == 'arri' else 'float')
+        else:
+            tsc[x] = (F(tv['v']), base[tv['ty']])
+    return tsc, tvc
+
+
+def eager_fails(e, sc, vc, dead=False):
     """does the formula fail when EVERY Piecewise branch is evaluated and combined with its context (numpy.select
-    evaluates all branches; sympy moves surrounding operations into the branches)?  Set-valued evaluation."""
+    evaluates all branches; sympy moves surrounding operations into the branches)?  Set-valued evaluation.
+    dead=True: additionally the body of a Sum over an EMPTY range is evaluated (once, at the lower limit) and a
+    Piecewise without any branch (nan) counts as a failure -- "strict" evaluation of every part of the formula."""
     CAP = 24
 
     def app(f, *sets):
@@ -375,6 +542,8 @@ def eager_fails(e, sc, vc):
         if k == 'c':
             return [F(e[1])]
         if k == 'nan':
+            if dead:
+                raise EvalError('nan')
             return []
         if k == 'v':
             if e[1] not in sc:
@@ -390,6 +559,8 @@ def eager_fails(e, sc, vc):
                 for hi in his[:1]:
                     if lo.denominator != 1 or hi.denominator != 1 or hi - lo > 64:
                         raise EvalError('type')
+                    if dead and hi < lo:
+                        ev(e[4], {**sc, e[1]: lo})
                     for kk in range(int(lo), int(hi) + 1):
                         acc = app(lambda x, y: x + y, acc, ev(e[4], {**sc, e[1]: F(kk)}))
             return acc
